@@ -328,6 +328,33 @@ def structure_flags(text):
     return clears, get_rejects, guard("wasiFDReaddir"), guard("wasiFdFdstatGet"), guard("wasiFDFilestatGet"), whence_first, sync_inval, rejects_nul, rd_closes
 
 
+PATH_FUNCS = [("path_open", "wasiPathOpen", 1), ("path_filestat_get", "wasiPathFilestatGet", 1),
+              ("path_rename", "wasiPathRename", 2), ("path_unlink_file", "wasiPathUnlinkFile", 1),
+              ("path_remove_directory", "wasiPathRemoveDirectory", 1), ("path_create_directory", "wasiPathCreateDirectory", 1),
+              ("path_symlink", "wasiPathSymlink", 1), ("path_readlink", "wasiPathReadlink", 1)]
+
+
+def path_call_facts(text):
+    """For every path_* function: is the directory descriptor validated UNCONDITIONALLY — each
+    `wasiFileDescriptorGet` is the whole condition of an `if (!…) { … return WASI_ERRNO_BADF; }`, each
+    `<x>Path == NULL` test likewise, the expected number of both is present, and the first lookup
+    precedes every use of the guest path (resolvePath / path[…]).  -> [(import, bool)]"""
+    facts = []
+    for imp, fn, ngets in PATH_FUNCS:
+        body = function_body(text, fn)
+        body = re.sub(r"#\s*(?:ifdef|if|elif)\s+(?:_WIN32|defined\(__MWERKS__\)[^\n]*|defined\(__wii__\))[^\n]*\n.*?(?=#\s*(?:elif|else))", "", body, flags=re.S)
+        strict_get = re.findall(r"if\s*\(\s*!\s*wasiFileDescriptorGet\s*\(\s*\w+\s*,\s*&\s*\w+\s*\)\s*\)\s*\{[^{}]*?return\s+WASI_ERRNO_BADF\s*;[^{}]*\}", body)
+        all_get = re.findall(r"wasiFileDescriptorGet\s*\(", body)
+        strict_null = re.findall(r"if\s*\(\s*\w*[pP]ath\w*\s*==\s*NULL\s*\)\s*\{[^{}]*?return\s+WASI_ERRNO_BADF\s*;[^{}]*\}", body)
+        all_null = re.findall(r"\w*[pP]reopenPath\w*\s*==\s*NULL", body)
+        first_get = body.find("wasiFileDescriptorGet(")
+        uses = [m.start() for m in re.finditer(r"resolvePath\s*\(|\bpath\s*\[|\b(?:old|new)Path\s*\[", body)]
+        ok = (len(all_get) == ngets and len(strict_get) == ngets and len(all_null) == ngets and len(strict_null) == ngets
+              and first_get >= 0 and all(u > first_get for u in uses))
+        facts.append((imp, ok))
+    return facts
+
+
 def lean_list(items):
     return "[" + ", ".join(items) + "]"
 
@@ -446,6 +473,9 @@ def generate(repo):
     w(f"def filestatNullPath : Option Nat := {og(g_fl)}")
     w("/-- `wasiFDReaddir` calls `close(descriptor.fd)` after registering the DIR stream, while the table entry keeps the number -/")
     w(f"def readdirClosesNativeFd : Bool := {b(rd_closes)}")
+    w("/-- per path_* import: the directory descriptor is validated unconditionally (lookup + NULL-path test, each the")
+    w("    whole condition of an `if … return WASI_ERRNO_BADF`) before the guest path is looked at -/")
+    w("def pathCallsValidateDirfd : List (String × Bool) := " + lean_list(f'("{n}", {b(ok)})' for n, ok in path_call_facts(text)))
     w("/-- `resolvePath` fails for a guest path that contains a NUL byte -/")
     w(f"def resolveRejectsNul : Bool := {b(rejects_nul)}")
     w("/-- fd_seek converts (and rejects) whence before looking the descriptor up -/")
